@@ -259,6 +259,11 @@ func intrinsicTable() map[string]func(in *Interp, fr *frame, args []Value) Value
 		}
 		return Iface{}
 	}
+	m["verifReachable"] = func(in *Interp, fr *frame, args []Value) Value {
+		// is the func value target reachable in the heap graph from root (a pointer or value)?
+		target := ifaceFunc(args[1])
+		return Bool(in.reachable(args[0], target))
+	}
 	m["verifNote"] = func(in *Interp, fr *frame, args []Value) Value {
 		in.path.notes = append(in.path.notes, argStr(args[0]))
 		return nil
@@ -353,4 +358,102 @@ func (in *Interp) imgLoadW(addr *Term, nbytes int) *Term {
 		}
 	}
 	return res
+}
+
+// reachable walks the engine's heap graph.
+func (in *Interp) reachable(root Value, target *FuncV) bool {
+	seenCell := map[*Value]bool{}
+	seenObj := map[interface{}]bool{}
+	var walk func(v Value, depth int) bool
+	walk = func(v Value, depth int) bool {
+		if depth > 64 {
+			return false
+		}
+		switch x := v.(type) {
+		case nil, *Term, string, *SymStr, FloatV:
+			return false
+		case *FuncV:
+			if x == nil {
+				return false
+			}
+			if x == target {
+				return true
+			}
+			if seenObj[x] {
+				return false
+			}
+			seenObj[x] = true
+			for _, e := range x.env {
+				if walk(e, depth+1) {
+					return true
+				}
+			}
+			if x.makeFuncImpl != nil {
+				return walk(x.makeFuncImpl, depth+1)
+			}
+			return false
+		case *Value:
+			if x == nil || seenCell[x] {
+				return false
+			}
+			seenCell[x] = true
+			return walk(*x, depth+1)
+		case *Struct:
+			if x == nil || seenObj[x] {
+				return false
+			}
+			seenObj[x] = true
+			for _, f := range x.f {
+				if walk(f, depth+1) {
+					return true
+				}
+			}
+		case *ArrObj:
+			if x == nil || seenObj[x] {
+				return false
+			}
+			seenObj[x] = true
+			for _, e := range x.elems {
+				if walk(e, depth+1) {
+					return true
+				}
+			}
+		case Slice:
+			if x.img || x.nilS || x.arr == nil {
+				return false
+			}
+			return walk(x.arr, depth+1)
+		case ElemPtr:
+			return walk(x.arr, depth+1)
+		case Iface:
+			return walk(x.v, depth+1)
+		case FabIface:
+			return walk(x.tab, depth+1) || walk(x.data, depth+1)
+		case CastPtr:
+			return walk(x.p, depth+1)
+		case *MapV:
+			if x == nil || seenObj[x] {
+				return false
+			}
+			seenObj[x] = true
+			for i := range x.keys {
+				if x.live[i] && (walk(x.keys[i], depth+1) || walk(x.vals[i], depth+1)) {
+					return true
+				}
+			}
+		case *RValue:
+			if x == nil {
+				return false
+			}
+			return walk(x.v, depth+1) || walk(x.ptr, depth+1)
+		case Tuple:
+			for _, e := range x {
+				if walk(e, depth+1) {
+					return true
+				}
+			}
+		}
+		return false
+	}
+	return walk(root, 0)
 }
